@@ -3,7 +3,8 @@
   `evs`, i.e. every schedule of the reader, the writer, the subscription goroutines, the sources,
   the network and the server-side closer, and every client frame sequence (both sub-protocols: `cfg.proto`).
 -/
-import ApiFu.C08.Lemmas
+import ApiFu.C08.LemmasFlags
+import ApiFu.C08.LemmasStuck
 
 namespace ApiFu.C08
 
@@ -117,5 +118,183 @@ theorem wire_is_prefix_of_queue (cfg : Cfg) (evs : List Ev) :
     (writerLive (run cfg init evs).writer = true →
       enqOf (run cfg init evs).log = wireOf (run cfg init evs).log ++ (run cfg init evs).outgoing) :=
   wire_prefix cfg evs
+
+
+/-- **wire_final_after_writer_exit** — only the write loop writes: once it has returned, no step of
+    any goroutine, under any schedule, adds a message to the wire. -/
+theorem wire_final_after_writer_exit (cfg : Cfg) (s : Sys) (hg : writerGone s = true) (evs : List Ev) :
+    wireOf (run cfg s evs).log = wireOf s.log := by
+  induction evs generalizing s with
+  | nil => rfl
+  | cons e es ih =>
+    have hg' := gone_mono cfg s e hg
+    rw [run_cons, ih _ hg', wire_frozen cfg s e hg']
+
+/-- **pre_ack_silence** — for every schedule and every client frame sequence, on both
+    sub-protocols: (1) every message on the wire that is not preceded by a `connection_ack` is a
+    connection error; (2) as long as the ack of a successful init has not been queued, the log holds
+    no `exec`, `started`, `stop`, `consumed` or `returned` entry — no operation was executed or
+    started, no source created or stopped — and only connection errors were queued or written.
+    Since every prefix of a schedule is a schedule, (2) says that operations the server handles
+    before it acknowledges an init are never executed. -/
+theorem pre_ack_silence (cfg : Cfg) (evs : List Ev) :
+    let s := run cfg init evs
+    (∀ f ∈ (wireOf s.log).takeWhile (· != .ack), f = .connError) ∧
+    (SFrame.ack ∉ enqOf s.log → ∀ o ∈ s.log, o.preAckOk = true) := by
+  intro s
+  obtain ⟨_, _, hf, ha⟩ := inv_all_reachable cfg evs
+  constructor
+  · exact preOk_prefix (fifo_wire_prefix hf) ha.2.2.1
+  · intro hn; exact (ha.2.2.2 hn).2.1
+
+/-- The ack is queued only after `didInit` was set, i.e. by a successful init. -/
+theorem ack_only_after_init (cfg : Cfg) (evs : List Ev) :
+    SFrame.ack ∈ enqOf (run cfg init evs).log → (run cfg init evs).didInit = true :=
+  (inv_all_reachable cfg evs).2.2.2.1
+
+/-- **query_once** (safety, every schedule) — for every operation that was started and is answered
+    on the read loop (query, mutation, failing subscription, invalid document): what the wire
+    carries for it is a prefix of [its result, its complete]: never two results, never two
+    completes, never a complete before the result, nothing else — also while the connection is
+    being torn down, whichever way it ends. -/
+theorem query_once (cfg : Cfg) (evs : List Ev) (g : Gen) (id : Id) (k : OpKind)
+    (hs : Out.started g id k ∈ (run cfg init evs).log) (hk : k ≠ .subscription) :
+    projGen g (wireOf (run cfg init evs).log) <+: [.result id g 0, .complete id g] :=
+  (safe_reachable cfg evs).2.1 g id k hs hk
+
+/-- **subscription_shape** (safety, every schedule) — for every subscription whose source was
+    created: what the wire carries for it is results* followed by at most one complete, and
+    nothing after the complete. -/
+theorem subscription_shape (cfg : Cfg) (evs : List Ev) (g : Gen)
+    (hs : Out.exec g .subscription ∈ (run cfg init evs).log) :
+    ∃ id, Out.started g id .subscription ∈ (run cfg init evs).log ∧
+      SubShape id g (projGen g (wireOf (run cfg init evs).log)) :=
+  (safe_reachable cfg evs).2.2 g hs
+
+/-- **query_once** (while the connection stays open) — at every quiescent point of every schedule,
+    each started query / mutation / failing subscription / invalid document has received exactly
+    one result followed by exactly one complete. -/
+theorem query_once_quiescent (cfg : Cfg) (evs : List Ev) (hq : Quiescent (run cfg init evs))
+    (g : Gen) (id : Id) (k : OpKind) (hs : Out.started g id k ∈ (run cfg init evs).log) (hk : k ≠ .subscription) :
+    projGen g (wireOf (run cfg init evs).log) = [.result id g 0, .complete id g] := by
+  obtain ⟨ha, hw, hp⟩ := quiescent_facts hq
+  have := ha.1 g id k (mem_marks_started.mpr hs) hk
+  rw [hp, List.append_nil] at this
+  rw [hw]; exact this
+
+/-- **subscription_shape** (while the connection stays open) — at every quiescent point of every
+    schedule, each subscription has received exactly one result per source event its goroutine took
+    from the channel, in order, followed by exactly one complete if it has been stopped
+    (`cancelled`: its Stop() ran, see `cancelled_iff_stopped`) or its source has ended
+    (`chanClosed`), and by nothing otherwise. -/
+theorem subscription_quiescent (cfg : Cfg) (evs : List Ev) (hq : Quiescent (run cfg init evs))
+    (t : Task) (ht : t ∈ (run cfg init evs).tasks) :
+    projGen t.gen (wireOf (run cfg init evs).log) =
+      (consumedOf t.gen (run cfg init evs).log).map (.result t.id t.gen) ++
+      (if t.cancelled || t.chanClosed then [.complete t.id t.gen] else []) := by
+  obtain ⟨ha, hw, _⟩ := quiescent_facts hq
+  have hidle := hq.2.2.2 t ht
+  have h2 := ha.2.1 _ (mem_absA_tasks ht)
+  have h3 := ha.2.2.1 _ (mem_absA_tasks ht)
+  have hfl := flags_reachable cfg evs t ht
+  simp only [] at h2 h3
+  have hpend : pendOf t.id t.gen t.pc = [] := by
+    rcases hidle with h | ⟨h, _, _⟩ <;> rw [h] <;> rfl
+  rw [hpend, List.append_nil] at h2
+  have hret : returnedIn t.gen (absA (run cfg init evs)).marks = (t.cancelled || t.chanClosed) := by
+    rw [h3]
+    rcases hidle with h | ⟨h, hc, hcc⟩
+    · simp [Task.flagsOk, h] at hfl
+      rw [h]
+      rcases hfl with hx | hx <;> simp [hx]
+    · rw [h, hc, hcc]; rfl
+  rw [hw]
+  show projGen t.gen (absA (run cfg init evs)).enq = _
+  rw [h2, hret]
+  show List.map _ (consumedOf t.gen ((run cfg init evs).log.filter Out.isMark)) ++ _ = _
+  rw [consumedOf_filter]
+
+/-- A subscription goroutine's context is cancelled exactly when Stop() has run on its source. -/
+theorem cancelled_iff_stopped (cfg : Cfg) (evs : List Ev) (t : Task) (ht : t ∈ (run cfg init evs).tasks) :
+    t.cancelled = true ↔ stopCount t.gen (run cfg init evs).log = 1 := by
+  obtain ⟨_, _, _, _, _, b6, b7, _⟩ := (inv12_reachable cfg evs).2
+  have hm : (t.gen, t.id, t.cancelled) ∈ (absBook (run cfg init evs)).tasks := List.mem_map.mpr ⟨t, ht, rfl⟩
+  have h6 := b6 _ hm
+  have h7 := b7 _ hm
+  simp only [] at h6 h7
+  rw [stopCount_eq]
+  show _ ↔ List.count t.gen (absBook (run cfg init evs)).stops = 1
+  rw [h6, h7]
+  split <;> simp_all
+
+/-- **ping_pong** (graphql-transport-ws, fix 01) — at every quiescent point of every schedule the
+    wire carries exactly one pong per ping the server received after a successful init. (Under
+    graphql-ws, where ping is not a message type, and for pings before the init, the wire carries
+    no pong at all: the count on the right is what is due.) -/
+theorem ping_pong (cfg : Cfg) (evs : List Ev) (hq : Quiescent (run cfg init evs)) :
+    (wireOf (run cfg init evs).log).count .pong =
+      if cfg.proto == .tws && cfg.pingFix then (run cfg init evs).log.count (.recv .ping true) else 0 := by
+  obtain ⟨ha, hw, hp⟩ := quiescent_facts hq
+  have h4 := ha.2.2.2
+  rw [hp, List.append_nil] at h4
+  rw [hw]
+  show List.count SFrame.pong (absA (run cfg init evs)).enq = _
+  rw [h4]
+  unfold pongDue pingCount
+  split
+  · show List.count _ ((run cfg init evs).log.filter Out.isMark) = _
+    rw [List.count_filter rfl]
+  · rfl
+
+/-- **blocked_sender_forever** (F-08c, the code before fix 03) — from a state in which the read
+    loop is blocked in `sendMessage` on the full buffer after the write loop has returned, no
+    schedule ever reaches Closed: HandleClose never runs (no source is stopped, the connection
+    stays registered), the read loop and the goroutine waiting in `finishClosing` remain forever.
+    With fix 03 the same send returns an error (`closed_tasks_finish`, `trySend_gone`). -/
+theorem blocked_sender_forever (cfg : Cfg) (s : Sys) (h : StuckReader cfg s) (evs : List Ev) :
+    StuckReader cfg (run cfg s evs) ∧ (run cfg s evs).handlerClosed = false :=
+  ⟨stuck_run h evs, (stuck_run h evs).2.2.2.1⟩
+
+/-- The blocking state is reachable (shown for a buffer of 2 instead of 100 slots): init (ack and
+    keep-alive fill the buffer), a query (the reader blocks on its result), the network drops, the
+    write fails and the write loop returns, the reader gets the result into the freed slot and
+    blocks for good on the complete. -/
+example :
+    let cfg : Cfg := { proto := .ws, cap := 2, sendFix := false }
+    StuckReader cfg (run cfg init [.client (.init true), .client (.start 1 .query), .netDrop, .writerStep .outgoing, .readerStep]) := by
+  refine ⟨rfl, by decide, by decide, by decide, .complete 1 0, [], false, none, by decide⟩
+
+/-- Negation witness F-08a (before fix 01): on graphql-transport-ws a ping after init closes the
+    connection with 4400 and no pong is ever written; with the fix the pong is written. -/
+example :
+    let evs := [Ev.client (.init true), .writerStep .outgoing, .client .ping, .writerStep .closeMsg, .writerStep .outgoing,
+                .writerStep .outgoing]
+    (Out.closeFrame 4400 ∈ (run { proto := .tws, pingFix := false } init evs).log ∧
+      SFrame.pong ∉ wireOf (run { proto := .tws, pingFix := false } init evs).log) ∧
+    SFrame.pong ∈ wireOf (run { proto := .tws } init evs).log := by
+  decide
+
+/-- Negation witness F-08b (before fix 02): after a subscription's source has ended, a new
+    subscription with the same id is never started; with the fix it is, and the ended source is
+    stopped then. -/
+example :
+    let evs := [Ev.client (.init true), .client (.start 1 .subscription), .source 0 .ended, .subTaskStep 0, .subTaskStep 0,
+                .client (.start 1 .subscription)]
+    Out.started 1 1 .subscription ∉ (run { proto := .ws, reuseFix := false } init evs).log ∧
+    (Out.started 1 1 .subscription ∈ (run { proto := .ws } init evs).log ∧ stopCount 0 (run { proto := .ws } init evs).log = 1) := by
+  decide
+
+/-- Non-vacuity of the quiescent theorems: a session with a query, a subscription with two events,
+    a stop and a ping reaches a quiescent state in which the wire is exactly what is due. -/
+example :
+    let evs := [Ev.client (.init true), .writerStep .outgoing, .client (.start 1 .query), .client (.start 2 .subscription),
+                .source 1 (.event 7), .subTaskStep 1, .source 1 (.event 8), .subTaskStep 1, .client .ping, .client (.stop 2),
+                .subTaskStep 1, .subTaskStep 1,
+                .writerStep .outgoing, .writerStep .outgoing, .writerStep .outgoing, .writerStep .outgoing, .writerStep .outgoing,
+                .writerStep .outgoing]
+    let s := run { proto := .tws } init evs
+    (s.writer = .loop ∧ s.outgoing = [] ∧ s.reader = .reading) ∧
+    wireOf s.log = [.ack, .result 1 0 0, .complete 1 0, .result 2 1 7, .result 2 1 8, .pong, .complete 2 1] := by
+  decide
 
 end ApiFu.C08
